@@ -198,6 +198,47 @@ let do_cc line =
         | _ -> 1) in
     obs (Printf.sprintf " err=0 missing=%d dups=0 wrongslot=0 bad=%d" !missing bad)
 
+(* ---------------------------------------------------------------- RC *)
+(* the creation race with a failing creator, replayed on the LTS (Conc/KtableConc.v) with the
+   spin loop as it is now (fixed = true): thread 0 = creator, thread 1 = the setter that loses *)
+let do_rc line =
+  match String.index_opt line ';' with
+  | None -> failwith "bad RC line"
+  | Some p ->
+    let hd = String.sub line 0 p in
+    let env = (match words hd with [_; e] -> parse_env e | _ -> failwith "bad RC header") in
+    let gsize = env_key_table_size env in
+    obs (Printf.sprintf "RC n=%s" (zs gsize));
+    let slot id = get_idx id gsize in
+    let t0 = nat_of_int 0 and t1 = nat_of_int 1 in
+    let st = ref init in
+    let stp t a = match step slot true !st t a with Some s -> st := s | None -> failwith "RC: disabled step" in
+    let rec finish t fuel =
+      if fuel = 0 then failwith "RC: no progress" else
+      match !st.pc t with
+      | SRet rc -> stp t (AStep true); "c" ^ zs rc
+      | GRet v -> stp t (AStep true); zs v
+      | Crash -> "crash"
+      | _ -> stp t (AStep true); finish t (fuel - 1) in
+    let c1 = { c_key = zi 2; c_val = zi 11; c_dtor = zi 1 } and c2 = { c_key = zi 3; c_val = zi 22; c_dtor = zi 2 } in
+    (* thread 0 wins the CAS; thread 1 fails its CAS and spins; thread 0's create fails *)
+    stp t0 (ACallSet c1); stp t0 (AStep true); stp t0 (AStep true);
+    stp t1 (ACallSet c2); stp t1 (AStep true); stp t1 (AStep true); stp t1 (AStep true);
+    stp t0 (AStep false);
+    let injected = (match !st.pc t0 with SFailStore _ -> 1 | _ -> 0) in
+    stp t0 (AStep true);                       (* NULL stored back *)
+    let r1 = finish t1 1000 in
+    let r0 = finish t0 1000 in
+    stp t0 (ACallSet { c1 with c_val = zi 12 });
+    let r0' = finish t0 1000 in
+    stp t0 (ACallGet (zi 2)); let g1 = finish t0 1000 in
+    stp t0 (ACallGet (zi 3)); let g2 = finish t0 1000 in
+    let nd = ref 0 in
+    for i = 0 to int_of_z gsize - 1 do
+      List.iter (fun e -> if e.edtor <> Z0 && e.eval_ <> Z0 then incr nd) (!st.chains (nat_of_int 0) (nat_of_int i))
+    done;
+    obs (Printf.sprintf " injected=%d creator=%s loser=%s retry=%s get1=%s get2=%s dtors=%d" injected r0 r1 r0' g1 g2 !nd)
+
 let () =
   let ic = if Array.length Sys.argv > 1 then open_in Sys.argv.(1) else stdin in
   List.iter (fun line ->
@@ -213,6 +254,7 @@ let () =
            | "KT" -> do_kt line
            | "WB" -> do_wb line
            | "CC" -> do_cc line
+           | "RC" -> do_rc line
            | _ -> failwith ("bad line: " ^ line));
           Printf.printf "%s |%s\n" (Buffer.contents buf_obs) (Buffer.contents buf_int)
         end
